@@ -1,4 +1,4 @@
-CONSTANTS Impl = "skip"  Keys = {1, 2, 3}  NVal = 1  MaxIter = 1  Masks = {} UseFree = FALSE
+CONSTANTS Impl = "skip"  Keys = {1, 2, 3}  NVal = 1  MaxIter = 1  Masks = {} UseFree = FALSE  Tags = {0}
 SPECIFICATION Spec
 INVARIANT TypeOK
 INVARIANT IterBook
